@@ -66,7 +66,9 @@ def make_config(case):
 
 def make_frames(case):
     vt = float if case.get("float_votes") else "int64"
-    units = case["units"]
+    # `foreign`: baseline rows (and feed rows) of a state that is NOT in the office's `states` list of the config - a
+    # national baseline file used for an office that is on the ballot in some states only
+    units = case["units"] + case.get("foreign", [])
     pre = pd.DataFrame(
         {
             "postal_code": [u["st"] for u in units],
